@@ -32,7 +32,7 @@ func init() {
 		Gen: func(seed uint64, tier string) Case { return genC07(seed, tier, "C07") },
 		Run: runC07,
 		Sim: true,
-		Assumptions: []string{"one value type (int64) per swamp: the value index of a swamp with mixed value types is not specified", "records with equal sort keys may come in any order inside their tie group"},
+		Assumptions: []string{"one value type per swamp (int64 in half of the cases, otherwise one of the other ten typed kinds, read through its own VALUE_* index): the value index of a swamp with mixed value types is not specified", "records with equal sort keys may come in any order inside their tie group"},
 		Real:        gwReal,
 		Stub:        gwStub,
 	})
@@ -57,6 +57,10 @@ func genC07(seed uint64, tier string, prop string) Case {
 	r := newRng(seed, "c07"+prop)
 	c := Case{Prop: prop, Seed: seed, Cfg: map[string]int64{}}
 	c.Cfg["write_interval"] = int64(r.intn(2))
+	if prop == "C07" {
+		// the value type of the swamp's records (and with it the typed value index that is read): int64 half of the time
+		c.Cfg["vkind"] = int64(r.pick(10, 1, 1, 1, 1, 1, 1, 1, 1, 1, 1))
+	}
 	n := 4 + r.intn(50)
 	nkeys := int64(2 + r.intn(7))
 	off := func() int64 {
@@ -226,12 +230,13 @@ func (g *idxRun) idxStep(i int, op Op, sw string) *Result {
 	case "put":
 		key := keyName(op.A[0])
 		old := m[key]
-		n := &mrec{Kind: "int64", I: op.A[1]}
+		n := &mrec{}
 		if old != nil {
 			n = old.clone()
-			n.I = op.A[1]
 		}
-		req := &mrec{Kind: "int64", I: op.A[1], CreatedAt: g.at(op.A[2]), UpdatedAt: g.at(op.A[3]), ExpiredAt: g.at(op.A[4])}
+		c07setVal(n, g.vkind(), op.A[1])
+		req := &mrec{CreatedAt: g.at(op.A[2]), UpdatedAt: g.at(op.A[3]), ExpiredAt: g.at(op.A[4])}
+		c07setVal(req, g.vkind(), op.A[1])
 		if req.CreatedAt != 0 {
 			n.CreatedAt = req.CreatedAt
 		}
@@ -500,6 +505,27 @@ func (g *idxRun) same(tr *hydrapb.Treasure, want *mrec) (string, string) {
 	return "", ""
 }
 
+// c07kinds: value kinds of a C07 swamp (Cfg vkind) and the value index that goes with each. The model keeps the small
+// integer I (-4..4) as the sort key for every kind; what is stored derives from it monotonically.
+var c07kinds = []string{"int64", "int8", "int16", "int32", "uint8", "uint16", "uint32", "uint64", "float32", "float64", "string"}
+var c07valueIdx = map[string]hydrapb.IndexType_Type{"int64": hydrapb.IndexType_VALUE_INT64, "int8": hydrapb.IndexType_VALUE_INT8, "int16": hydrapb.IndexType_VALUE_INT16, "int32": hydrapb.IndexType_VALUE_INT32,
+	"uint8": hydrapb.IndexType_VALUE_UINT8, "uint16": hydrapb.IndexType_VALUE_UINT16, "uint32": hydrapb.IndexType_VALUE_UINT32, "uint64": hydrapb.IndexType_VALUE_UINT64,
+	"float32": hydrapb.IndexType_VALUE_FLOAT32, "float64": hydrapb.IndexType_VALUE_FLOAT64, "string": hydrapb.IndexType_VALUE_STRING}
+
+func (g *idxRun) vkind() string { return c07kinds[int(g.c.cfg("vkind", 0))%len(c07kinds)] }
+
+func c07setVal(r *mrec, kind string, i int64) {
+	r.Kind, r.I, r.U, r.F, r.S = kind, i, 0, 0, ""
+	switch kind {
+	case "uint8", "uint16", "uint32", "uint64":
+		r.U = uint64(i + 4)
+	case "float32", "float64":
+		r.F = float64(i) * 0.5
+	case "string":
+		r.S = fmt.Sprintf("v%d", i+4)
+	}
+}
+
 var idxTypes = []hydrapb.IndexType_Type{hydrapb.IndexType_KEY, hydrapb.IndexType_CREATION_TIME, hydrapb.IndexType_UPDATE_TIME, hydrapb.IndexType_EXPIRATION_TIME, hydrapb.IndexType_VALUE_INT64}
 var idxNames = []string{"key", "creation_time", "update_time", "expiration_time", "value"}
 
@@ -510,6 +536,9 @@ func (g *idxRun) query(i int, op Op, sw string) *Result {
 		idx = 3
 	}
 	req := &hydrapb.GetByIndexRequest{IslandID: 1, SwampName: sw, IndexType: idxTypes[idx], From: int32(from), Limit: int32(limit)}
+	if idx == 4 {
+		req.IndexType = c07valueIdx[g.vkind()]
+	}
 	if desc {
 		req.OrderType = hydrapb.OrderType_DESC
 	}
